@@ -8,20 +8,63 @@
   their contract (see TT/Model/Pred.lean).
 -/
 import TT.Model.Pred
+import TT.Lemmas.Pred
 
 namespace TT
 
 /-- A supporting case for an expected outcome exists exactly when evaluation yields it. -/
 theorem C18_value_case_iff (p : ValP) (e : Bool) (v : TVal) : p.hasCase e v = (p.eval v == e) := by
-  sorry
+  cases p <;> try rfl
+  all_goals
+    simp only [ValP.hasCase, ValP.eval]
+    split <;> cases e <;> rfl
 
 theorem C18_case_iff (c : PCtx) (p : Pred) (e : Bool) (x : Item) : p.hasCase c e x = (p.eval c x == e) := by
-  sorry
+  induction p generalizing e x with
+  | level p => rfl
+  | target p => rfl
+  | name p => rfl
+  | field n v =>
+    simp only [Pred.hasCase, Pred.eval]
+    split
+    · exact C18_value_case_iff ..
+    · cases e <;> rfl
+  | message p =>
+    simp only [Pred.hasCase, Pred.eval]
+    split <;> cases e <;> rfl
+  | parent p ih =>
+    simp only [Pred.hasCase, Pred.eval]
+    split
+    · exact ih ..
+    · cases e <;> rfl
+  | ancestor p ih =>
+    simp only [Pred.hasCase, Pred.eval, ih, beq_true', beq_false']
+    cases e
+    · simp [any_hasCase_dual]
+    · simp
+  | and a b iha ihb =>
+    simp only [Pred.hasCase, Pred.eval, iha, ihb, beq_true', beq_false']
+    cases e <;> cases a.eval c x <;> cases b.eval c x <;> rfl
+  | or a b iha ihb =>
+    simp only [Pred.hasCase, Pred.eval, iha, ihb, beq_true', beq_false']
+    cases e <;> cases a.eval c x <;> cases b.eval c x <;> rfl
 
 /-- Target: equal to the given path or below it at a `::` boundary. -/
 theorem C18_target_meaning (pfx t : Str) :
     targetMatches pfx t = true ↔ (t = pfx ∨ ∃ r, t = pfx ++ K.colons ++ r) := by
-  sorry
+  unfold targetMatches
+  cases h : stripPrefix pfx t with
+  | none =>
+    simp only [Bool.false_eq_true, false_iff]
+    rintro (h1 | ⟨r, h1⟩)
+    · have := (stripPrefix_eq_some pfx t []).2 (by simp [h1])
+      rw [h] at this; cases this
+    · have := (stripPrefix_eq_some pfx t (K.colons ++ r)).2 (by simp [h1])
+      rw [h] at this; cases this
+  | some rest =>
+    have ht := (stripPrefix_eq_some _ _ _).1 h
+    subst ht
+    simp [List.isEmpty_iff, isPrefix_iff]
 
 /-- Level: exact match, or threshold (`LevelFilter`: at most as verbose as the maximum; `OFF`
     matches nothing). -/
@@ -29,53 +72,100 @@ theorem C18_level_meaning (l : Level) :
     (∀ x, (LevelP.exact x).eval l = true ↔ l = x) ∧
     (∀ m, (LevelP.atMost (some m)).eval l = true ↔ l.toNat ≤ m.toNat) ∧
     (LevelP.atMost none).eval l = false := by
-  sorry
+  refine ⟨fun x => ?_, fun m => ?_, rfl⟩
+  · simp [LevelP.eval]
+  · simp [LevelP.eval]
 
 /-- Field: present and matching, with strict value kinds. -/
 theorem C18_field_meaning (c : PCtx) (n : Str) (v : ValP) (x : Item) :
     (Pred.field n v).eval c x = true ↔ ∃ val, (c.valuesOf x).get n = some val ∧ v.eval val = true := by
-  sorry
+  simp only [Pred.eval]
+  cases (c.valuesOf x).get n <;> simp
 
 theorem C18_strict_kinds (v : TVal) :
     (∀ x, (ValP.i64 x).eval v = true ↔ v = .int x) ∧ (∀ x, (ValP.i128 x).eval v = true ↔ v = .int x) ∧
     (∀ x, (ValP.u64 x).eval v = true ↔ v = .uint x) ∧ (∀ x, (ValP.u128 x).eval v = true ↔ v = .uint x) ∧
     (∀ b, (ValP.bool b).eval v = true ↔ v = .bool b) ∧ (∀ s, (ValP.str s).eval v = true ↔ v = .str s) ∧
     (∀ x, (ValP.f64 x).eval v = true ↔ ∃ b, v = .float b ∧ f64Eq b x = true) := by
-  sorry
+  cases v <;>
+    simp [ValP.eval, TVal.eqBool, TVal.eqI64, TVal.eqI128, TVal.eqU64, TVal.eqU128, TVal.eqStr,
+      TVal.eqF64]
 
 /-- Message, direct parent, any ancestor, boolean and/or. -/
 theorem C18_message_meaning (c : PCtx) (p : StrP) (x : Item) :
     (Pred.message p).eval c x = true ↔ ∃ m, c.messageOf x = some m ∧ p.eval m = true := by
-  sorry
+  simp only [Pred.eval]
+  cases c.messageOf x <;> simp
 
 theorem C18_parent_meaning (c : PCtx) (p : Pred) (x : Item) :
     (Pred.parent p).eval c x = true ↔ ∃ par, c.parentOfItem x = some par ∧ p.eval c (.span par) = true := by
-  sorry
+  simp only [Pred.eval]
+  cases c.parentOfItem x <;> simp
 
 theorem C18_ancestor_meaning (c : PCtx) (p : Pred) (x : Item) :
     (Pred.ancestor p).eval c x = true ↔ ∃ a ∈ c.ancestorsOfItem x, p.eval c (.span a) = true := by
-  sorry
+  simp [Pred.eval, List.any_eq_true]
 
 theorem C18_and_or_meaning (c : PCtx) (a b : Pred) (x : Item) :
     ((Pred.and a b).eval c x = true ↔ (a.eval c x = true ∧ b.eval c x = true)) ∧
     ((Pred.or a b).eval c x = true ↔ (a.eval c x = true ∨ b.eval c x = true)) := by
-  sorry
+  simp [Pred.eval]
 
 /-! ### Scanner helpers: determined by the list of matching items -/
 
 theorem C18_scan_single (items : List Item) (m : Item → Bool) (x : Item) :
     (scanSingle items m = some x ↔ items.filter m = [x]) ∧
     (scanSingle items m = none ↔ (items.filter m).length ≠ 1) := by
-  sorry
+  rw [scanSingle_eq]
+  constructor
+  · split
+    · rename_i h; simp [h]
+    · rename_i h
+      constructor
+      · intro h1; cases h1
+      · intro h1; exact absurd h1 (h _)
+  · split
+    · rename_i h; simp [h]
+    · rename_i h
+      simp only [true_iff]
+      intro hl
+      match hf : List.filter m items, hl with
+      | [y], _ => exact h y hf
 
 theorem C18_scan_first_last (items : List Item) (m : Item → Bool) :
     scanFirst items m = (items.filter m).head? ∧ scanLast items m = (items.filter m).getLast? := by
-  sorry
+  constructor
+  · simp [scanFirst, List.head?_filter]
+  · unfold scanLast
+    rw [← List.head?_filter, List.filter_reverse, List.head?_reverse]
 
 theorem C18_scan_all_none (items : List Item) (m : Item → Bool) :
     ((scanAll items m).isSome ↔ ∀ x ∈ items, m x = true) ∧
     ((scanNone items m).isSome ↔ items.filter m = []) := by
-  sorry
+  constructor
+  · unfold scanAll
+    split
+    · rename_i h
+      simp only [Option.isSome_none, Bool.false_eq_true, false_iff]
+      obtain ⟨y, hy, hm⟩ := List.find?_isSome.1 h
+      intro hall
+      simp [hall y hy] at hm
+    · rename_i h
+      simp only [Option.isSome_some, true_iff]
+      intro y hy
+      cases hm : m y with
+      | true => rfl
+      | false => exact absurd (List.find?_isSome.2 ⟨y, hy, by simp [hm]⟩) h
+  · unfold scanNone
+    split
+    · rename_i h
+      simp only [Option.isSome_none, Bool.false_eq_true, false_iff]
+      obtain ⟨y, hy, hm⟩ := List.find?_isSome.1 h
+      intro hnil
+      exact (List.filter_eq_nil_iff.1 hnil) y hy hm
+    · rename_i h
+      simp only [Option.isSome_some, true_iff]
+      refine List.filter_eq_nil_iff.2 fun y hy hm => h (List.find?_isSome.2 ⟨y, hy, hm⟩)
 
 /-- Non-vacuity: `app::db` is below `app` but `apple` is not; an ancestor predicate with a case. -/
 example : targetMatches [97, 112, 112] [97, 112, 112, 58, 58, 100, 98] = true ∧
